@@ -334,7 +334,7 @@ func TestLifecycleHistoriesRapid(t *testing.T) {
 		nSteps := rapid.IntRange(3, vx.Pick(30, 45)).Draw(rt, "steps")
 		for i := 0; i < nSteps; i++ {
 			s := step{
-				kind:  rapid.SampledFrom([]string{"start", "start", "start", "stop", "editor-state", "editor-state", "editor-lock", "lc-state", "lc-state", "advance", "advance", "advance", "remove-owner", "deactivate-and-orphan"}).Draw(rt, "kind"),
+				kind:  rapid.SampledFrom([]string{"start", "start", "start", "stop", "editor-state", "editor-state", "editor-lock", "lc-state", "lc-state", "advance", "advance", "advance", "remove-owner", "deactivate-and-orphan", "lock-pending", "lock-pending"}).Draw(rt, "kind"),
 				who:   rapid.IntRange(0, nL-1).Draw(rt, "who"),
 				part:  int32(rapid.IntRange(0, 3).Draw(rt, "part")),
 				state: rapid.SampledFrom([]ring.PartitionState{ring.PartitionPending, ring.PartitionActive, ring.PartitionInactive, ring.PartitionDeleted, ring.PartitionUnknown}).Draw(rt, "state"),
@@ -349,6 +349,7 @@ func TestLifecycleHistoriesRapid(t *testing.T) {
 		var failure string
 		var hist []string
 		nontrivial := false
+		lockedPending := 0
 		vx.Bubble(t, func(b *vx.B) {
 			t0 := time.Now()
 			store, closer := consul.NewInMemoryClient(ring.GetPartitionRingCodec(), log.NewNopLogger(), nil)
@@ -454,6 +455,31 @@ func TestLifecycleHistoriesRapid(t *testing.T) {
 					}
 					if err == nil && current().Partitions[s.part].StateChangeLocked != s.flag {
 						failure = fmt.Sprintf("step %d: lock flag not applied", si)
+						return
+					}
+				case "lock-pending":
+					// constructed: lock a partition while it is still pending, then let its owners' reconcile
+					// ticks pass the promotion time
+					cur := current()
+					var pend []int32
+					for pid := int32(0); pid < 4; pid++ {
+						if pd, ok := cur.Partitions[pid]; ok && pd.State == ring.PartitionPending {
+							pend = append(pend, pid)
+						}
+					}
+					if len(pend) == 0 {
+						break
+					}
+					pid := pend[int(s.part)%len(pend)]
+					if err := editor.SetPartitionStateChangeLock(context.Background(), pid, true); err != nil {
+						failure = fmt.Sprintf("step %d: lock of pending partition %d: %v", si, pid, err)
+						return
+					}
+					lockedPending++
+					time.Sleep(waitDur + s.dt)
+					vx.Wait()
+					if pd := current().Partitions[pid]; pd.StateChangeLocked && pd.State != ring.PartitionPending {
+						failure = fmt.Sprintf("step %d: partition %d was locked while pending and is %v (still locked) %v later", si, pid, pd.State, waitDur+s.dt)
 						return
 					}
 				case "remove-owner":
@@ -579,6 +605,10 @@ func TestLifecycleHistoriesRapid(t *testing.T) {
 		})
 		if failure != "" {
 			rt.Fatalf("%s\nhistory:\n%s", failure, strings.Join(hist, "\n"))
+		}
+		if lockedPending > 0 {
+			vx.Class("histories_with_a_pending_partition_locked", 1)
+			nontrivial = true
 		}
 		if nontrivial {
 			vx.NonTrivial(vx.FP("hist", strings.Join(hist, ";"), waitOwners, waitDur, delDelay, fmt.Sprint(cfgs)))
